@@ -309,6 +309,12 @@ def replay(chk, native, frame, sig, nm, model):
     def val(name):
         return Fraction(model.get(name, 0)) if model else Fraction(0)
     a = [val('ax'), val('ay'), val('az')]
+    try:
+        return _replay(chk, native, frame, sig, nm, model, val, a)
+    except (ValueError, OverflowError, ZeroDivisionError) as e:
+        return {'reproduced': False, 'what': 'replay failed: %r' % (e,)}
+
+def _replay(chk, native, frame, sig, nm, model, val, a):
     if nm.startswith('O4'):
         return replay_translation(native, model)
     if frame == 'canonical':
